@@ -151,6 +151,24 @@ pub trait ErrorBounds: Round {
         -> (FBig<Self, B>, FBig<Self, B>, bool, bool);
 }
 
+/// Test if `f` is a (positive or negative) power of the base. The numbers right below it in
+/// magnitude have a smaller exponent, so they are spaced `B` times as close as `f.ulp()`.
+#[inline]
+fn is_power_of_base<R: Round, const B: Word>(f: &FBig<R, B>) -> bool {
+    // the significand is normalized (not divisible by the base)
+    f.repr.significand.is_one() || f.repr.significand == IBig::NEG_ONE
+}
+
+/// The distance from `f` to the adjacent number (of the same precision) on the side towards zero.
+#[inline]
+fn ulp_towards_zero<R: Round, const B: Word>(f: &FBig<R, B>) -> FBig<R, B> {
+    let mut ulp = f.ulp();
+    if is_power_of_base(f) {
+        ulp.repr.exponent -= 1;
+    }
+    ulp
+}
+
 impl Round for mode::Zero {
     type Reverse = mode::Away;
 
@@ -224,8 +242,8 @@ impl ErrorBounds for mode::Away {
             (FBig::ZERO, FBig::ZERO, true, true)
         } else {
             match f.repr().sign() {
-                Sign::Positive => (f.ulp(), FBig::ZERO, false, true),
-                Sign::Negative => (FBig::ZERO, f.ulp(), true, false),
+                Sign::Positive => (ulp_towards_zero(f), FBig::ZERO, false, true),
+                Sign::Negative => (FBig::ZERO, ulp_towards_zero(f), true, false),
             }
         }
     }
@@ -257,7 +275,10 @@ impl ErrorBounds for mode::Down {
         if f.precision() == 0 {
             (FBig::ZERO, FBig::ZERO, true, true)
         } else {
-            (FBig::ZERO, f.ulp(), true, false)
+            match f.repr().sign() {
+                Sign::Positive => (FBig::ZERO, f.ulp(), true, false),
+                Sign::Negative => (FBig::ZERO, ulp_towards_zero(f), true, false),
+            }
         }
     }
 }
@@ -288,7 +309,10 @@ impl ErrorBounds for mode::Up {
         if f.precision() == 0 {
             (FBig::ZERO, FBig::ZERO, true, true)
         } else {
-            (f.ulp(), FBig::ZERO, false, true)
+            match f.repr().sign() {
+                Sign::Positive => (ulp_towards_zero(f), FBig::ZERO, false, true),
+                Sign::Negative => (f.ulp(), FBig::ZERO, false, true),
+            }
         }
     }
 }
@@ -348,7 +372,15 @@ impl ErrorBounds for mode::HalfAway {
         } else {
             (true, false)
         };
-        (half_ulp.clone(), half_ulp, incl_l, incl_r)
+
+        let mut half_ulp_tz = half_ulp.clone(); // on the side towards zero
+        if is_power_of_base(f) {
+            half_ulp_tz.repr.exponent -= 1;
+        }
+        match f.repr.sign() {
+            Sign::Positive => (half_ulp_tz, half_ulp, incl_l, incl_r),
+            Sign::Negative => (half_ulp, half_ulp_tz, incl_l, incl_r),
+        }
     }
 }
 
@@ -404,7 +436,19 @@ impl ErrorBounds for mode::HalfEven {
         // ties are rounded to the even significand (taken at full precision), so the bounds
         // belong to the interval iff the last digit of f at its precision is even
         let incl = !f.repr.significand.bit(0) || (B % 2 == 0 && f.repr.digits() < f.precision());
-        (half_ulp.clone(), half_ulp, incl, incl)
+
+        // on the side towards zero of a power of the base the tie lies between B^precision (f) and
+        // B^precision - 1 on the finer grid
+        let mut half_ulp_tz = half_ulp.clone();
+        let mut incl_tz = incl;
+        if is_power_of_base(f) {
+            half_ulp_tz.repr.exponent -= 1;
+            incl_tz = B % 2 == 0;
+        }
+        match f.repr.sign() {
+            Sign::Positive => (half_ulp_tz, half_ulp, incl_tz, incl),
+            Sign::Negative => (half_ulp, half_ulp_tz, incl, incl_tz),
+        }
     }
 }
 
